@@ -10,7 +10,8 @@ echo "checks on the tree: quick $([ $bad = 0 ] && echo all exit 0 || echo SOME F
 /venv/bin/python tools/twins.py twins2/* > /tmp/reg_twins2.txt 2>&1; echo "twins2: $(grep -c '^ok' /tmp/reg_twins2.txt) silent; alarms: $(grep '^ALARM\|^PATCH' /tmp/reg_twins2.txt | sed 's#.*/twins2/##;s#.diff##' | tr '\n' ' ')"
 /venv/bin/python tools/twins.py twins3/* > /tmp/reg_twins3.txt 2>&1; echo "twins3: $(grep -c '^ok' /tmp/reg_twins3.txt) silent; alarms: $(grep '^ALARM\|^PATCH' /tmp/reg_twins3.txt | sed 's#.*/twins3/##;s#.diff##' | tr '\n' ' ')"
 /venv/bin/python tools/twins.py twins4/* > /tmp/reg_twins4.txt 2>&1; echo "twins4: $(grep -c '^ok' /tmp/reg_twins4.txt) silent; alarms: $(grep '^ALARM\|^PATCH' /tmp/reg_twins4.txt | sed 's#.*/twins4/##;s#.diff##' | tr '\n' ' ')"
-for k in 1 2 3 4; do d=twins; [ $k -gt 1 ] && d=twins$k; /venv/bin/python tools/twins_status.py /verif/$d /tmp/reg_twins$k.txt > /dev/null; done
+/venv/bin/python tools/twins.py twins5/* > /tmp/reg_twins5.txt 2>&1; echo "twins5: $(grep -c '^ok' /tmp/reg_twins5.txt) silent; alarms: $(grep '^ALARM\|^PATCH' /tmp/reg_twins5.txt | sed 's#.*/twins5/##;s#.diff##' | tr '\n' ' ')"
+for k in 1 2 3 4 5; do d=twins; [ $k -gt 1 ] && d=twins$k; /venv/bin/python tools/twins_status.py /verif/$d /tmp/reg_twins$k.txt > /dev/null; done
 rm -f /tmp/rr_*.log
 ls seeded | grep -v "neutralised\|json" | xargs -P 8 -I{} sh -c 'p=$(echo {} | cut -c1-3); /venv/bin/python tools/seeded.py $p {} --scratch --no-tests --src=/verif/seeded/{} > /tmp/rr_{}.log 2>&1'
 miss=""; for f in /tmp/rr_*.log; do n=$(basename $f .log | sed s/rr_//); l=$(tail -1 $f); case "$l" in *"firing: {}"*|"") miss="$miss $n";; esac; done
